@@ -409,6 +409,16 @@ theorem inv_pruneEnd {s : St} (I : Inv s) (j : Nat) : Inv { s with prunes := s.p
       exact ⟨p, hp, h1, h2, h3, fun pr h => h4 pr (sub pr h)⟩,
     I.rel, I.own⟩
 
+theorem step_forget {s s' : St} {i : Nat} (h : step s (.forget i) = some s') :
+    s' = { s with snaps := s.snaps.eraseIdx i } := by
+  simp only [step] at h
+  split at h
+  · simp only [Option.some.injEq] at h; exact h.symm
+  · simp at h
+
+theorem inv_forget {s : St} (I : Inv s) (i : Nat) : Inv { s with snaps := s.snaps.eraseIdx i } :=
+  ⟨I.span, I.uniq, I.t0le, I.pnle, I.del, fun c hc k hk => I.snap c (List.mem_of_mem_eraseIdx hc) k hk, I.rel, I.own⟩
+
 /-- **every step of every actor preserves the invariant** -/
 theorem inv_step {s s' : St} (a : Step) (I : Inv s) (h : step s a = some s') : Inv s' := by
   cases a with
@@ -420,6 +430,7 @@ theorem inv_step {s s' : St} (a : Step) (I : Inv s) (h : step s a = some s') : I
   | pruneRewrite j => obtain ⟨pr, hpr, hg, rfl⟩ := step_pruneRewrite h; exact inv_pruneRewrite I hpr (hg I.span)
   | pruneRemove j id => obtain ⟨pr, hpr, hid, rfl⟩ := step_pruneRemove h; exact inv_pruneRemove I hpr hid
   | pruneEnd j => rw [step_pruneEnd h]; exact inv_pruneEnd I j
+  | forget i => rw [step_forget h]; exact inv_forget I i
 
 theorem inv_run : ∀ (as : List Step) {s s' : St}, Inv s → run s as = some s' → Inv s'
   | [], s, s', I, h => by simp only [run, Option.some.injEq] at h; exact h ▸ I
